@@ -28,6 +28,7 @@ import (
 	"fmt"
 	"go/ast"
 	"go/parser"
+	"go/printer"
 	"go/token"
 	"math/big"
 	"os"
@@ -192,7 +193,7 @@ func copyMemDB(src dbm.DB) dbm.DB {
 type lineage struct {
 	name  string
 	h     *hist
-	from  int64 // first height this lineage executes
+	from  int64    // first height this lineage executes
 	trace []string // Coq: per executed block (chain id before, after, registry after)
 	start string   // Coq: chain id cached when the lineage's current instance was constructed / initialised
 	segs  []string // Coq: finished (start, trace) segments: one per application instance
@@ -588,6 +589,7 @@ func genRestartHistory(r *Rng, nBlocks, opsPerBlock int) hInput {
 type scanResult struct {
 	FieldWrites []string `json:"keeper_field_writes"`
 	Callers     []string `json:"callers"`
+	Fields      []string `json:"long_lived_struct_fields"` // census: "dir:Type.field type"
 }
 
 // scanSources walks /repo's non-test Go sources (x/, app/, precompiles/):
@@ -615,6 +617,32 @@ func scanSources(root string) (scanResult, error) {
 				return err
 			}
 			for _, d := range f.Decls {
+				if gd, ok := d.(*ast.GenDecl); ok && gd.Tok == token.TYPE {
+					for _, sp := range gd.Specs {
+						ts, ok := sp.(*ast.TypeSpec)
+						if !ok || !longLived[ts.Name.Name] {
+							continue
+						}
+						st, ok := ts.Type.(*ast.StructType)
+						if !ok {
+							continue
+						}
+						for _, fl := range st.Fields.List {
+							var tb strings.Builder
+							_ = printer.Fprint(&tb, fset, fl.Type)
+							names := []string{"(embedded)"}
+							if len(fl.Names) > 0 {
+								names = names[:0]
+								for _, n := range fl.Names {
+									names = append(names, n.Name)
+								}
+							}
+							for _, n := range names {
+								res.Fields = append(res.Fields, fmt.Sprintf("%s:%s.%s %s", filepath.Dir(rel), ts.Name.Name, n, tb.String()))
+							}
+						}
+					}
+				}
 				fd, ok := d.(*ast.FuncDecl)
 				if !ok || fd.Body == nil {
 					continue
@@ -681,6 +709,8 @@ func scanSources(root string) (scanResult, error) {
 	}
 	sort.Strings(res.FieldWrites)
 	sort.Strings(res.Callers)
+	sort.Strings(res.Fields)
+	res.Fields = uniq(res.Fields)
 	res.FieldWrites = uniq(res.FieldWrites)
 	res.Callers = uniq(res.Callers)
 	return res, nil
@@ -701,25 +731,36 @@ var longLived = map[string]bool{"Keeper": true, "BaseKeeper": true, "Precompile"
 
 // what the model's table of in-memory fields accounts for
 var allowedFieldWrites = map[string]string{
-	"x/evm/keeper:(*Keeper).WithChainID writes eip155ChainID":  "re-derived in every BeginBlock (chainid_initial_irrelevant)",
-	"x/evm/keeper:(*Keeper).WithPrecompiles writes precompiles": "construction only (panics when set twice)",
+	"x/evm/keeper:(*Keeper).WithChainID writes eip155ChainID":    "re-derived in every BeginBlock (chainid_initial_irrelevant)",
+	"x/evm/keeper:(*Keeper).WithPrecompiles writes precompiles":  "construction only (panics when set twice)",
 	"x/evm/keeper:(*Keeper).AddEVMExtensions writes precompiles": "must have no non-test caller",
-	"x/evm/keeper:(*Keeper).SetHooks writes hooks":              "construction only",
-	"x/evm/keeper:(*Keeper).CleanHooks writes hooks":            "test helper",
-	"x/epochs/keeper:(*Keeper).SetHooks writes hooks":           "construction only",
-	"app:(*tpsCounter).start writes reportPeriod":               "telemetry",
+	"x/evm/keeper:(*Keeper).SetHooks writes hooks":               "construction only",
+	"x/evm/keeper:(*Keeper).CleanHooks writes hooks":             "test helper",
+	"x/epochs/keeper:(*Keeper).SetHooks writes hooks":            "construction only",
+	"app:(*tpsCounter).start writes reportPeriod":                "telemetry",
 }
 
 var allowedCallers = map[string]string{
 	"AddEVMExtensions called on evmKeeper in x/erc20/keeper/precompiles.go:Keeper.RegisterERC20Extensions": "RegisterERC20Extensions itself has no caller",
 	"WithPrecompiles called on evmKeeper in app/app.go:NewHaqq":                                            "construction",
-	"WithPrecompiles called on evm in x/evm/keeper/state_transition.go:Keeper.ApplyMessageWithConfig":       "the per-transaction vm.EVM object, filled from the keeper's registry",
-	"WithChainID called on k in x/evm/keeper/abci.go:Keeper.BeginBlock":                                     "every block",
-	"WithChainID called on k in x/evm/genesis.go:InitGenesis":                                               "InitChain",
+	"WithPrecompiles called on evm in x/evm/keeper/state_transition.go:Keeper.ApplyMessageWithConfig":      "the per-transaction vm.EVM object, filled from the keeper's registry",
+	"WithChainID called on k in x/evm/keeper/abci.go:Keeper.BeginBlock":                                    "every block",
+	"WithChainID called on k in x/evm/genesis.go:InitGenesis":                                              "InitChain",
+}
+
+func verifRoot() string {
+	if r := os.Getenv("VERIF_ROOT"); r != "" {
+		return r
+	}
+	exe, err := os.Executable()
+	if err == nil {
+		return filepath.Dir(filepath.Dir(exe)) // <root>/build/hq
+	}
+	return "/verif"
 }
 
 func scanCase(root string) Case {
-	c := Case{ID: "source-scan", Kind: "source-scan", Input: map[string]string{"scan": root}, Key: "source-scan", OracleOK: true, Nontrivial: true, Tags: []string{"source-scan"}}
+	c := Case{ID: "source-scan", Kind: "source-scan", Input: map[string]string{"scan": root}, Key: "source-scan", OracleOK: true, Nontrivial: true, Tags: []string{"source-scan"}, Obligation: true}
 	res, err := scanSources(root)
 	if err != nil {
 		c.OracleOK, c.OracleMsg = false, "cannot scan sources: "+err.Error()
@@ -738,6 +779,39 @@ func scanCase(root string) Case {
 	for _, cl := range res.Callers {
 		if _, ok := allowedCallers[cl]; !ok {
 			msgs = append(msgs, "registry / chain-id writer reachable from unexpected code: "+cl)
+		}
+	}
+	// census of the fields of long-lived objects (keepers, precompiles, modules, the app): every
+	// field is in-memory state of the node.  A field that is neither in the committed census
+	// (corpus/C20/long_lived_fields.txt, each entry classified by the restart model's table) nor of
+	// an obviously immutable / store-backed kind is an obligation the restart theorem does not cover.
+	known := map[string]bool{}
+	if bz, err := os.ReadFile(filepath.Join(verifRoot(), "corpus", "C20", "long_lived_fields.txt")); err == nil {
+		for _, l := range strings.Split(string(bz), "\n") {
+			if l = strings.TrimSpace(l); l != "" && !strings.HasPrefix(l, "#") {
+				known[l] = true
+			}
+		}
+	} else {
+		msgs = append(msgs, "cannot read the field census corpus/C20/long_lived_fields.txt")
+	}
+	for _, f := range res.Fields {
+		if known[f] {
+			continue
+		}
+		typ := f[strings.Index(f, " ")+1:]
+		harmless := false
+		for _, pat := range []string{"Keeper", "StoreKey", "codec.", "Codec", "Subspace", "Hooks", "Router", "ConsensusParam"} {
+			if strings.Contains(typ, pat) {
+				harmless = true
+			}
+		}
+		switch typ {
+		case "string", "bool", "sdk.AccAddress", "uint64", "int64", "uint", "int":
+			harmless = true
+		}
+		if !harmless {
+			msgs = append(msgs, "new in-memory field on a long-lived object, not covered by the restart model (is it rebuilt from the database on start?): "+f)
 		}
 	}
 	if len(res.FieldWrites) == 0 || len(res.Callers) == 0 {
